@@ -6,7 +6,9 @@ import MaddyVerif.Expect.C06Calls
 
 Quantifier: every configuration (any number of checks, any placement over the global, source and
 destination blocks — the same check may be referenced by several blocks —, any verdict of every
-check at every stage and for every recipient, any routing, any targets, any DMARC outcome), every
+check at every stage and for every recipient, any routing, any targets, any DMARC outcome, the
+message already flagged as quarantined or not when the pipeline gets it — `Cfg.q0`: the pipeline may
+be the target of another pipeline whose checks flagged the message), every
 envelope (any list of recipients, repeated ones included), both body paths, and every completion
 order of the goroutines of every `runAndMergeResults` call (`Ord.fair`: the oracle only permutes).
 
@@ -205,7 +207,7 @@ theorem atData (cfg : Cfg) (hok : (start idOrd cfg).2 = false) (rs : List Rcpt) 
     (∀ c, c ∈ cfg.global ∨ c ∈ cfg.source → c ∈ (rcptPhase cfg rs).1.cr.states) ∧
     (∀ b, b ∈ (rcptPhase cfg rs).1.used ↔ ∃ x ∈ (rcptPhase cfg rs).2, x.2 = false ∧ cfg.route x.1 = b) ∧
     (∀ c, appliesBody cfg (rcptPhase cfg rs).2 c → c ∈ (rcptPhase cfg rs).1.cr.states) ∧
-    (rcptPhase cfg rs).1.metaQ = false := by
+    (rcptPhase cfg rs).1.metaQ = cfg.q0 := by
   have hs := start_frame idOrd cfg
   have ch0 := start_ok cfg hok
   have e := addAll_ext cfg rs (start idOrd cfg).1
@@ -234,7 +236,7 @@ theorem atData (cfg : Cfg) (hok : (start idOrd cfg).2 = false) (rs : List Rcpt) 
     · exact hgs c (Or.inl hc)
     · exact hgs c (Or.inr hc)
     · exact (addAll_accepted cfg rs _ x hx hxa _ (by simp [appGroups]) c hc).1
-  · show (addAll idOrd cfg (start idOrd cfg).1 rs).1.metaQ = false
+  · show (addAll idOrd cfg (start idOrd cfg).1 rs).1.metaQ = cfg.q0
     rw [addAll_metaQ, hs.2.2]
 
 theorem mem_bodyGroups (cfg : Cfg) (hok : (start idOrd cfg).2 = false) (rs : List Rcpt) (c : CheckId) :
@@ -449,13 +451,15 @@ theorem data_passed (cfg : Cfg) (d : Dlv) (h : (bodySMTP idOrd cfg d).2.refused 
       · simp only [h1, h2, Bool.false_eq_true, ↓reduceIte]
 
 /-- **A quarantine flags every target.** If a check applying to the delivered message — or the
-DMARC policy — quarantines, then for every completion order and over both body paths:
+DMARC policy — quarantines, or the message was already flagged when this pipeline got it (by a
+check or the DMARC policy of the pipeline this one is a target of), then for every completion
+order and over both body paths:
 `MsgMetadata.Quarantine` is set before any target is given the body, every target that refuses
 quarantined messages (as `target.remote` does) refuses, and every hand-over that does happen
 carries the flag. -/
 theorem C06_quarantine_flags_every_target (o : Ord) (ho : o.fair) (cfg : Cfg) (m : Mode) (rs : List Rcpt) :
     ∀ b, (run o cfg m rs).body = some b → b.refused = none →
-      (QuarVerdict cfg (run o cfg m rs).rcpts ∨ cfg.dmarc = .quar) →
+      (QuarVerdict cfg (run o cfg m rs).rcpts ∨ cfg.dmarc = .quar ∨ cfg.q0 = true) →
         (run o cfg m rs).final.metaQ = true ∧
         (∀ x ∈ b.results, x.2.2 = !(cfg.tgt x.1).refuseQ) ∧
         (∀ x ∈ handedOver m (run o cfg m rs), x.2.2 = true ∧ (cfg.tgt x.1).refuseQ = false) := by
@@ -499,7 +503,9 @@ theorem C06_quarantine_flags_every_target (o : Ord) (ho : o.fair) (cfg : Cfg) (m
               obtain ⟨g, hg, hcg⟩ := hg
               exact ch.q_mono ((addAll_accepted cfg rs _ x hx hxa g hg c hcg).2.2 hv)
           simp [this]
-        · simp [hq]
+        · rcases hq with hq | hq
+          · simp [hq]
+          · simp [ad.2.2.2.2.2, hq]
       have hres : ∀ x ∈ b.results, x.2.2 = !(cfg.tgt x.1).refuseQ := by
         intro x hx
         rw [← hb, dp.2.2.2.2] at hx
@@ -534,17 +540,19 @@ theorem C06_remote_refuses_quarantined (cfg : Cfg) (t : TgtId) (h : (cfg.tgt t).
     targetAccepts cfg q t = remoteBody q ∧ ((qr = true ∨ qb = true) → (remoteTx qr qb).2.2 = false) := by
   cases q <;> cases qr <;> cases qb <;> simp [targetAccepts, h, remoteBody, remoteTx, remoteAddRcpt]
 
-/-- … and nothing is flagged without a verdict: if no check has a quarantine verdict at any stage
-and the DMARC outcome is not quarantine, the flag is never set. -/
+/-- … and nothing is flagged without a verdict: if the message was not flagged when the pipeline
+got it, no check has a quarantine verdict at any stage and the DMARC outcome is not quarantine, the
+flag is never set. -/
 theorem C06_quarantine_only_by_verdict (o : Ord) (ho : o.fair) (cfg : Cfg) (m : Mode) (rs : List Rcpt)
+    (h0 : cfg.q0 = false)
     (h : (run o cfg m rs).final.metaQ = true) : cfg.dmarc = .quar ∨ ∃ c s, cfg.v c s = .quar := by
   rw [run_ord o ho, run_final] at h
   have sf := start_frame idOrd cfg
   split at h
-  · rw [sf.2.2] at h; cases h
+  · rw [sf.2.2, h0] at h; cases h
   · rename_i hs
     have hs' : (start idOrd cfg).2 = false := by simpa using hs
-    have am : (rcptPhase cfg rs).1.metaQ = false := (atData cfg hs' rs).2.2.2.2.2
+    have am : (rcptPhase cfg rs).1.metaQ = false := by rw [(atData cfg hs' rs).2.2.2.2.2, h0]
     split at h
     · rw [am] at h; cases h
     · rw [bodySMTP_eq] at h
@@ -566,6 +574,111 @@ theorem C06_quarantine_only_by_verdict (o : Ord) (ho : o.fair) (cfg : Cfg) (m : 
           rcases h with h | h
           · exact Or.inr (src h)
           · exact Or.inl h
+
+/-! ## the flag is monotone: a flagged message stays flagged through any pipeline -/
+
+/-- `applyResults` only ever raises `MsgMetadata.Quarantine`. -/
+theorem applyResults_mono (cfg : Cfg) (d : Dlv) (h : d.metaQ = true) : (applyResults cfg d).1.metaQ = true := by
+  rw [(applyResults_spec cfg d).2, h]; rfl
+
+theorem bodySMTP_metaQ_mono (o : Ord) (cfg : Cfg) (d : Dlv) (h : d.metaQ = true) :
+    (bodySMTP o cfg d).1.metaQ = true := by
+  simp only [bodySMTP]
+  split
+  · exact h
+  · split
+    · exact h
+    · split
+      · exact h
+      · split <;> exact applyResults_mono cfg _ h
+
+/-- **The quarantine flag is monotone.** A message that is flagged when a pipeline gets it — the
+pipeline is the target of another pipeline (`deliver_to &inner`, `reroute`) whose check or DMARC
+policy quarantined, or the endpoint flagged it — is flagged at every point of the transaction and
+when it ends, whatever the configuration, the verdicts of this pipeline's own checks (none of them
+need quarantine), its DMARC outcome, the envelope, the body path and the completion order (no
+fairness needed): no step of the pipeline lowers the flag.  Hence every target of this pipeline
+that refuses quarantined messages refuses, and every hand-over carries the flag. -/
+theorem C06_quarantine_flag_monotone (o : Ord) (cfg : Cfg) (m : Mode) (rs : List Rcpt) (h : cfg.q0 = true) :
+    (run o cfg m rs).final.metaQ = true ∧
+    (∀ b, (run o cfg m rs).body = some b → ∀ x ∈ b.results, x.2.2 = !(cfg.tgt x.1).refuseQ) ∧
+    (∀ x ∈ handedOver m (run o cfg m rs), x.2.2 = true) := by
+  have hs : (start o cfg).1.metaQ = true := by rw [(start_frame o cfg).2.2, h]
+  have ha : (addAll o cfg (start o cfg).1 rs).1.metaQ = true := by rw [addAll_metaQ, hs]
+  have hb : (bodyOf m o cfg (addAll o cfg (start o cfg).1 rs).1).1.metaQ = true := by
+    cases m
+    · exact bodySMTP_metaQ_mono o cfg _ ha
+    · show (bodyLMTP o cfg _).1.metaQ = true
+      rw [bodyLMTP_eq_bodySMTP]; exact bodySMTP_metaQ_mono o cfg _ ha
+  have hfin : (run o cfg m rs).final.metaQ = true := by
+    simp only [run]
+    split
+    · exact hs
+    · split
+      · exact ha
+      · exact hb
+  refine ⟨hfin, ?_, ?_⟩
+  · intro b hbody x hx
+    simp only [run] at hbody
+    split at hbody
+    · cases hbody
+    · split at hbody
+      · cases hbody
+      · simp only [Option.some.injEq] at hbody
+        subst hbody
+        have key : ∀ d : Dlv, d.metaQ = true → ∀ x ∈ (bodySMTP o cfg d).2.results, x.2.2 = !(cfg.tgt x.1).refuseQ := by
+          intro d hd x hx
+          simp only [bodySMTP] at hx
+          split at hx
+          · cases hx
+          · split at hx
+            · cases hx
+            · split at hx
+              · cases hx
+              · split at hx
+                · cases hx
+                · simp only [deliverAll, List.mem_map] at hx
+                  obtain ⟨y, _, rfl⟩ := hx
+                  have hm := applyResults_mono cfg
+                    { d with cr := (checkBodyBlocks o cfg (checkBody o cfg.v (checkBody o cfg.v d.cr cfg.global).1 cfg.source).1 d.used).1 } hd
+                  simp only [targetAccepts]
+                  rw [hm]; simp
+        cases m
+        · exact key _ ha x hx
+        · have hx' : x ∈ (bodySMTP o cfg (addAll o cfg (start o cfg).1 rs).1).2.results := by
+            rw [← bodyLMTP_eq_bodySMTP]; exact hx
+          exact key _ ha x hx'
+  · intro x hx
+    cases hb' : (run o cfg m rs).body with
+    | none => simp [handedOver, hb'] at hx
+    | some b =>
+      cases m
+      · simp only [handedOver, hb'] at hx
+        split at hx
+        · simp only [List.mem_map] at hx
+          obtain ⟨y, _, rfl⟩ := hx
+          exact hfin
+        · cases hx
+      · simp only [handedOver, hb', List.mem_map] at hx
+        obtain ⟨y, _, rfl⟩ := hx
+        exact hfin
+
+/-- The message handed from pipeline to pipeline (each one a target of the previous): every
+pipeline runs on the flag the previous one left behind. -/
+def flagThrough (o : Ord) (m : Mode) : Bool → List (Cfg × List Rcpt) → Bool
+  | q, [] => q
+  | q, p :: rest => flagThrough o m (run o { p.1 with q0 := q } m p.2).final.metaQ rest
+
+/-- … so through any chain of nested pipelines, of any depth, with any verdicts: once flagged,
+flagged to the end. -/
+theorem C06_quarantine_flag_monotone_chain (o : Ord) (m : Mode) (l : List (Cfg × List Rcpt)) :
+    flagThrough o m true l = true := by
+  induction l with
+  | nil => rfl
+  | cons p rest ih =>
+    simp only [flagThrough]
+    rw [(C06_quarantine_flag_monotone o { p.1 with q0 := true } m p.2 rfl).1]
+    exact ih
 
 /-! ## every check state sees every stage once -/
 
@@ -746,6 +859,13 @@ theorem C06_T1_merge_as_modelled :
     Generated.C06Calls.mergeAfterWait = Expect.C06Calls.mergeAfterWait ∧
     Generated.C06Calls.replayGroups = Expect.C06Calls.replayGroups := ⟨rfl, rfl, rfl, rfl⟩
 
+/-- In the current tree the pipeline package writes `MsgMetadata.Quarantine` only in
+`applyResults`, and every write stores the literal `true`: the flag is only ever raised, as
+`Model.applyResults` (and with it `C06_quarantine_flag_monotone`) has it. -/
+theorem C06_T1_flag_only_raised :
+    Generated.C06Calls.flagWriteValues = Generated.C06Calls.flagWriteSites.map (fun _ => "true") ∧
+    Generated.C06Calls.flagWriteSites = Expect.C06Calls.flagWriteSites := ⟨rfl, rfl⟩
+
 /-! ## non-vacuity: a concrete transaction exercising the hypotheses -/
 
 /-- Two checks: check 0 is referenced by the global block and by destination block 1, check 1 by
@@ -761,6 +881,7 @@ def exCfg : Cfg where
   route := fun r => if r = 2 then 1 else 0
   tgt := fun t => ⟨t = 1, t = 1⟩
   dmarc := .off
+  q0 := false
 
 example : exCfg.WF := ⟨by decide, by decide, by intro b; by_cases h : b = 0 <;> simp [exCfg, h]⟩
 
@@ -773,6 +894,18 @@ example : let ob := run idOrd exCfg .lmtp [1, 3, 2]
 
 /-- The same over SMTP: the refusal of target 1 fails the whole message. -/
 example : delivered .smtp (run idOrd exCfg .smtp [1, 3, 2]) = [] := by decide
+
+/-- The hypothesis of `C06_quarantine_flag_monotone` on a concrete transaction in which no check
+of the pipeline itself quarantines anything the message goes through (recipient 2 is not in the
+envelope): the flag handed over stays, the remote-like target 1 refuses, target 0 takes the
+message flagged — and without the flag handed over the same transaction is not flagged. -/
+example : let ob := run idOrd { exCfg with q0 := true } .lmtp [1, 3]
+    ob.final.metaQ = true ∧ handedOver .lmtp ob = [(0, [1], true)] ∧
+    (run idOrd exCfg .lmtp [1, 3]).final.metaQ = false := by
+  decide
+
+example : flagThrough idOrd .smtp false [(exCfg, [1, 2]), (exCfg, [1])] = true ∧
+    flagThrough idOrd .smtp false [(exCfg, [1]), (exCfg, [1])] = false := by decide
 
 /-- The hypothesis of `C06_one_state_per_check` is satisfiable (and the conclusion not trivial:
 calls were made). -/
